@@ -158,6 +158,11 @@ func (h *history) buildReport() []PacketReport {
 	h.lock.Lock()
 	defer h.lock.Unlock()
 
+	// addOutgoing keeps only the maxHistorySize most recently sent packets:
+	// nothing older is left to report, or to make room for.
+	if h.counter > maxHistorySize && h.nextReport < h.counter-maxHistorySize {
+		h.nextReport = h.counter - maxHistorySize
+	}
 	if h.nextReport > h.highestAcked {
 		return nil
 	}
